@@ -450,7 +450,7 @@ func eval1(c Case) (v evid.Verdict, trivial bool, outcome string) {
 			}
 			return evid.Pass()
 
-		case "bitflip", "truncate", "extend", "wrongdir", "badid", "badfiller":
+		case "bitflip", "truncate", "extend", "wrongdir", "badid", "badfiller", "short-ec":
 			pres := clone(refTok)
 			expectDir := fromAcc
 			sig := "accept:" + c.Kind + ":" + c.Variant
@@ -472,6 +472,15 @@ func eval1(c Case) (v evid.Verdict, trivial bool, outcome string) {
 				}
 				// the direction flag is not the only defence for bit 0 of the flags (the checksum
 				// covers it as well), so decode-or-verify is the requirement for every bit.
+			case "short-ec":
+				// a Wrap token that announces (EC) and carries only the first A octets of its checksum: a coherent token whose
+				// checksum is not the one the etype defines (a one-octet checksum can be guessed in 256 tries)
+				if c.Kind != gsstok.KindWrap || c.A < 1 || c.A >= ckLen {
+					trivial = true
+					return evid.Pass()
+				}
+				pres = pres[:len(pres)-ckLen+c.A]
+				pres[4], pres[5] = byte(c.A>>8), byte(c.A)
 			case "truncate":
 				if c.A < 0 || c.A >= len(pres) {
 					return evid.Fail("harness", "truncation length %d outside the %d-octet token", c.A, len(pres))
@@ -691,7 +700,7 @@ func lenClass(n int) string {
 	return "len:256-300"
 }
 
-var tamperVariants = []string{"bitflip", "truncate", "extend", "wrongdir", "badid", "badfiller",
+var tamperVariants = []string{"bitflip", "truncate", "extend", "wrongdir", "badid", "badfiller", "short-ec",
 	"chg-payload", "chg-flags", "chg-seq", "chg-key", "chg-usage", "nocksum"}
 
 func isTamper(v string) bool {
@@ -823,6 +832,8 @@ func TestProp(t *testing.T) {
 			} else {
 				c.Other = hex.EncodeToString(kgen.Bytes(t, "id", 2))
 			}
+		case "short-ec":
+			c.A = rapid.IntRange(1, 23).Draw(t, "ec")
 		case "badfiller":
 			if c.Kind == gsstok.KindMIC {
 				c.A = rapid.IntRange(0, 4).Draw(t, "fillerpos")
@@ -1042,6 +1053,11 @@ func TestProp(t *testing.T) {
 		}
 		for l := 0; l < tl; l++ {
 			with("truncate", l, "")
+		}
+		if g.kind == gsstok.KindWrap {
+			for ec := 1; ec < ref.CksumLen(g.et); ec++ {
+				with("short-ec", ec, "")
+			}
 		}
 		ext := []int{0x00, 0xff, 0x80, int(det(lbl+"/e", 1)[0])}
 		if r.Thorough() && i%6 == 0 {
